@@ -24,7 +24,7 @@ PROPS = {
                 "out-of-order merge, clean reopen; after every op a full dump of every measurement and seeded range/field-subset/descending reads are "
                 "compared with the last-write-wins model. Non-trivial = the history has a reorganisation (flush/compact/merge/reopen) followed by a "
                 "write; distinct = distinct digest of knobs + operation list.",
-        "eval_extra": [], "probes": ["out-of-order file present", "compacted file (level>0) present", "size-triggered flush"],
+        "eval_extra": [], "probes": ["out-of-order file present", "compacted file (level>0) present", "size-triggered flush", "flush while the flush times were loading"],
         "assumptions": ["single client; background work runs only as scheduled operations", "integers inside +-2^53, no NaN/Inf"],
         "quick": {"runs": 7000, "budget_s": 120, "workers": 14},
         "thorough": {"runs": 60000, "budget_s": 1200, "workers": 16, "env": {"VERIF_RUN_TIMEOUT_S": "900"}},
